@@ -32,7 +32,7 @@ ASSUME = ["seeded programs need not be valid Fortran otherwise", "message wordin
 
 def plan(tier):
     if tier == "quick":
-        return {"ncases": 240, "nshards": 16, "budget_s": 75, "floor": 3000, "stall_s": 60}
+        return {"ncases": 240, "nshards": 16, "budget_s": 75, "floor": 1000, "stall_s": 60}
     return {"ncases": 12000, "nshards": 16, "budget_s": 1800, "floor": 200000, "stall_s": 300}
 
 
